@@ -66,13 +66,30 @@ func palFromSave(kind string, n int, data []uint64, pal []int, spare int) palCon
 		for i, v := range pal {
 			p[i] = level.BlocksState(v)
 		}
-		return palWrap[level.BlocksState]{level.NewStatesPaletteContainerWithData(n, data, p)}
+		own := append([]uint64{}, data...)
+		c := palWrap[level.BlocksState]{level.NewStatesPaletteContainerWithData(n, own, p)}
+		palScribble(own, p[:cap(p)])
+		return c
 	}
 	p := make([]level.BiomesState, len(pal), len(pal)+spare)
 	for i, v := range pal {
 		p[i] = level.BiomesState(v)
 	}
-	return palWrap[level.BiomesState]{level.NewBiomesPaletteContainerWithData(n, data, p)}
+	own := append([]uint64{}, data...)
+	c := palWrap[level.BiomesState]{level.NewBiomesPaletteContainerWithData(n, own, p)}
+	palScribble(own, p[:cap(p)])
+	return c
+}
+
+// palScribble: the slices given to a WithData constructor stay the caller's; it overwrites them afterwards (a loader
+// reusing its buffers). The container holds what they said when it was built.
+func palScribble[T ~int](data []uint64, pal []T) {
+	for i := range data {
+		data[i] = ^data[i]
+	}
+	for i := range pal {
+		pal[i] = 1
+	}
 }
 
 func palMaxID(kind string) int {
